@@ -50,6 +50,13 @@ type Result struct {
 	BJoinedAt int      // id around which B's request was sent
 	UDPErrors int64    // movement of the kernel's UDP error counters during the session
 	Start     uint16   // source sequence number of id 0
+	PidStart  uint16   // picture id of id 0
+}
+
+// Source rebuilds the packet the publisher sent under id.
+func (res Result) Source(id int) *rtp.Packet {
+	key := id%40 == 0
+	return vrtc.VP8Packet(res.Start+uint16(id), uint32(id)*3000, (res.PidStart+uint16(id))&0x7FFF, res.SrcTid[id], key, uint32(id), 20+id%50)
 }
 
 // The server's own account of what it deliberately withheld: every successful
@@ -194,6 +201,10 @@ func Run(srv *vsrv.Server, name string, n int, r *rand.Rand) Result {
 	}
 	res.Start = start
 	pidStart := uint16(r.UintN(32768))
+	if r.IntN(2) == 0 {
+		pidStart = uint16(32768 - 50 - r.IntN(n/2)) // picture id wraps during the session
+	}
+	res.PidStart = pidStart
 	pattern := []uint8{0, 2, 1, 2}
 	var bc *vclient.Client
 	var subB *vrtc.Peer
